@@ -10,6 +10,7 @@ package gosub
 
 import (
 	"fmt"
+	"regexp"
 	"sort"
 	"strings"
 
@@ -229,24 +230,27 @@ func (s *scope) ofType(t ty) []variable {
 
 // gen is the generator state.
 type gen struct {
-	t       *rapid.T
-	structs []*structDef
-	iface   string   // interface name ("" if none)
-	impls   []string // struct names implementing iface (via pointer receiver or value)
-	implPtr map[string]bool
-	funcs   []*funcDef
-	globals []variable
-	nvar    int
-	nlabel  int
-	feat    map[string]int
-	depth   int
-	inFunc  *funcDef
-	loopLbl []string
-	budget  int // remaining statement budget
-	opt     Options
-	nmark   int
-	pure    bool // no traced evaluations (package-level initialisers)
+	t        *rapid.T
+	structs  []*structDef
+	iface    string   // interface name ("" if none)
+	impls    []string // struct names implementing iface (via pointer receiver or value)
+	implPtr  map[string]bool
+	funcs    []*funcDef
+	globals  []variable
+	nvar     int
+	nlabel   int
+	feat     map[string]int
+	depth    int
+	inFunc   *funcDef
+	loopLbl  []string
+	budget   int // remaining statement budget
+	opt      Options
+	nmark    int
+	pure     bool            // no traced evaluations (package-level initialisers)
+	noShadow map[string]bool // package-level names declared after func main
 }
+
+var declNameRe = regexp.MustCompile(`(?m)^(?:var |const |type |\t)([A-Za-z_]\w*)\b`)
 
 // Options of the generator.
 type Options struct {
@@ -1171,7 +1175,7 @@ func (g *gen) stmt(sc *scope, d int) string {
 		s := "{\n"
 		if len(vs) > 0 {
 			v := vs[g.intn(len(vs), "shv")]
-			if v.t.k <= kBool {
+			if v.t.k <= kBool && !g.noShadow[v.name] {
 				s += "\t" + v.name + " := " + g.expr(sc, v.t, 2) + "\n\t_ = " + v.name + "\n"
 				if needsConv(v.t, "") {
 					s = "{\n\tvar " + v.name + " " + v.t.String() + " = " + g.expr(sc, v.t, 2) + "\n\t_ = " + v.name + "\n"
@@ -1794,7 +1798,7 @@ func Gen() *rapid.Generator[*Program] { return GenOpt(Options{}) }
 // GenOpt is Gen with options.
 func GenOpt(opt Options) *rapid.Generator[*Program] {
 	return rapid.Custom(func(t *rapid.T) *Program {
-		g := &gen{t: t, feat: map[string]int{}, opt: opt}
+		g := &gen{t: t, feat: map[string]int{}, opt: opt, noShadow: map[string]bool{}}
 		p := &Program{Feat: g.feat}
 		p.Decls = append(p.Decls, helpers)
 		if opt.Marks {
@@ -1828,6 +1832,12 @@ func GenOpt(opt Options) *rapid.Generator[*Program] {
 			if len(cand) > 0 {
 				i := cand[g.intn(len(cand), "which")]
 				p.AfterMain = append(p.AfterMain, globals[i])
+				// the names it declares are not shadowed by locals: package-level declarations that are
+				// loaded lazily from inside a function see that function's locals (a listed finding of
+				// C01, decided by its regress file)
+				for _, m := range declNameRe.FindAllStringSubmatch(globals[i], -1) {
+					g.noShadow[m[1]] = true
+				}
 				globals = append(globals[:i:i], globals[i+1:]...)
 				g.f("decl-after-main")
 			}
